@@ -16,8 +16,15 @@ var ghostAllHealthy bool
 var ghostStopped []*us.HTTP
 var ghostStarted []*us.HTTP
 
+// ghostDuringHealthCheck, when set, runs inside every (synchronous, possibly slow) health check: what
+// a request arriving at that moment observes
+var ghostDuringHealthCheck func()
+
 //verif:hook (*github.com/vicanso/upstream.HTTP).DoHealthCheck
 func verifHook_doHealthCheck(h *us.HTTP) {
+	if f := ghostDuringHealthCheck; f != nil {
+		f()
+	}
 	for _, u := range h.GetUpstreamList() {
 		if ghostAllHealthy {
 			u.Healthy()
@@ -46,6 +53,7 @@ func verifHook_stopHealthCheck(h *us.HTTP) { ghostStopped = append(ghostStopped,
 func verifHook_newProxyMid(opt UpstreamServerOption, uh *us.HTTP) elton.Handler { return nil }
 
 var c19Policies = []string{us.PolicyFirst, us.PolicyRandom, us.PolicyRoundRobin, us.PolicyLeastconn, ""}
+var c19HealthChecks = []string{"", "/", "/ping", "/ping/"}
 var c19Addrs = []string{"http://a:1", "http://b:1", "http://c:1", "http://d:1"}
 
 func c19Servers(n int) []UpstreamServerConfig {
@@ -58,11 +66,17 @@ func c19Servers(n int) []UpstreamServerConfig {
 
 func Harness_C19_pick() {
 	n := 1 + verifChoice("servers", 3)
-	opt := UpstreamServerOption{Name: "u", Policy: c19Policies[verifChoice("policy", len(c19Policies))], Servers: c19Servers(n)}
+	opt := UpstreamServerOption{Name: "u", Policy: c19Policies[verifChoice("policy", len(c19Policies))], Servers: c19Servers(n),
+		HealthCheck: c19HealthChecks[verifChoice("healthCheck", len(c19HealthChecks))]}
 	srv := NewUpstreamServer(opt)
 	verifRunSpawned()
 	list := srv.HTTPUpstream.GetUpstreamList()
 	verifAssert("C19.wiring.all-servers-registered", len(list) == n)
+	// the probe the health checker performs is the configured one: an empty path means "TCP port
+	// check only" to the library, so "/" must not silently become "" (a listening server that answers
+	// 5xx would then count as healthy), and a path is not rewritten
+	verifAssert("C19.wiring.health-check-path-is-the-configured-one", srv.HTTPUpstream.Ping == opt.HealthCheck)
+	verifAssert("C19.wiring.policy-is-the-configured-one", srv.HTTPUpstream.Policy == opt.Policy)
 	healthyPrimary, healthyBackup := false, false
 	for i, u := range list {
 		verifAssert("C19.wiring.backup-flag", u.Backup == opt.Servers[i].Backup)
@@ -151,7 +165,17 @@ func Harness_C19_reset() {
 	reg := NewUpstreamServers([]UpstreamServerOption{{Name: "u", Servers: c19Servers(1)}, {Name: "gone", Servers: c19Servers(1)}})
 	verifRunSpawned()
 	oldU, oldGone := reg.Get("u"), reg.Get("gone")
+	// C16: while the update is applied (each new group runs a synchronous health check before it is
+	// usable), an upstream that stays configured is available to requests at every moment
+	missing := 0
+	ghostDuringHealthCheck = func() {
+		if reg.Get("u") == nil {
+			missing++
+		}
+	}
 	reg.Reset([]UpstreamServerOption{{Name: "u", Servers: c19Servers(2)}, {Name: "new", Servers: c19Servers(1)}})
+	ghostDuringHealthCheck = nil
+	verifAssert("C16.upstream-that-stays-configured-is-never-missing-during-reset", missing == 0)
 	verifRunSpawned()
 	cur := reg.Get("u")
 	verifAssert("C19.reset.same-name-is-replaced", cur != nil && cur != oldU && len(cur.HTTPUpstream.GetUpstreamList()) == 2)
